@@ -258,6 +258,60 @@ def e2e(ctx, w, d, fails, case, scenario=None):
             [x[:160] for x in lost[:2]], [x[:160] for x in gained[:2]]), case))
 
 
+BIG_TEXTS = ["日本語の要約 — 来歴の記録", "Tiếng Việt: nguồn gốc dữ liệu", "Ελληνικά: προέλευση", "русский: происхождение",
+             "emoji 🧪🔬 outside the BMP", "naïve café — ﬁ ligature"]
+
+
+def big_document(seed):
+    """a large (tens of kilobytes of TriG), PROV-O-expressible document dense in multi-byte characters: every block boundary of
+    whatever size a writer or reader may use falls inside non-ASCII text somewhere"""
+    import random
+    r = random.Random(seed)
+    doc = ProvDocument()
+    doc.add_namespace("ex", "http://example.org/")
+    n = r.randint(40, 90)
+    for i in range(n):
+        pad = "é" * r.randint(0, 7)
+        attrs = [("prov:label", Literal(pad + r.choice(BIG_TEXTS) + " %d" % i, langtag=r.choice(["ja", "vi", "el", "ru", "en"]))),
+                 ("ex:abstract", (r.choice(BIG_TEXTS) + " ") * r.randint(1, 12) + pad),
+                 ("ex:n", i)]
+        doc.entity("ex:e%d" % i, attrs)
+        if i % 3 == 0:
+            doc.activity("ex:a%d" % i, other_attributes=[("ex:title", pad + r.choice(BIG_TEXTS))])
+            doc.wasGeneratedBy("ex:e%d" % i, "ex:a%d" % i, identifier="ex:g%d" % i, other_attributes=[("ex:note", r.choice(BIG_TEXTS) + pad)])
+    b = doc.bundle("ex:bundle")
+    for i in range(r.randint(3, 10)):
+        b.entity("ex:be%d" % i, [("ex:abstract", (r.choice(BIG_TEXTS) + "·") * r.randint(1, 20))])
+    return doc
+
+
+def check_big(ctx, seed, fails):
+    doc = big_document(seed)
+    case = {"big_seed": seed}
+    logging.disable(logging.CRITICAL)
+    try:
+        with warnings.catch_warnings():
+            warnings.simplefilter("ignore")
+            try:
+                text = doc.serialize(format="rdf")
+                back = ProvDocument.deserialize(content=text, format="rdf")
+            except Exception as e:  # noqa
+                fails.append(Failure("oracle", None, "large non-ASCII document: RDF round trip raised %r" % (e,), case))
+                return
+    finally:
+        logging.disable(logging.NOTSET)
+    ctx.count("big-document")
+    ctx.count("big-document-kilobytes", len(text.encode("utf-8")) // 1024)
+    a, b = sset(doc.unified()), sset(back)
+    if a != b:
+        lost, gained = [], []
+        for k in set(a) | set(b):
+            lost += sorted(set(a.get(k, [])) - set(b.get(k, [])))
+            gained += sorted(set(b.get(k, [])) - set(a.get(k, [])))
+        fails.append(Failure("oracle", None, "large non-ASCII document: RDF round trip differs from unified(): lost %s / gained %s" % (
+            [x[:200] for x in lost[:2]], [x[:200] for x in gained[:2]]), case))
+
+
 def make_case(ctx, g, in_domain=True):
     w = World()
     b = RdfBuilder(g, w, in_domain=in_domain)
@@ -297,6 +351,9 @@ def run(ctx, use_model=True):
     total = ctx.n(250, 2500)
     worlds = []
     for i in range(total):
+        if i % 50 == 7:
+            check_big(ctx, g.rng.randrange(10 ** 9), fails)
+            ctx.evaluations += 1
         wide = (i % 4 == 3)
         w, d, scenario = make_case(ctx, g, in_domain=not wide)
         case = {"ops": list(w.ops), "scenario": scenario}
@@ -368,6 +425,10 @@ def oracle_only(ctx):
 
 def replay(ctx, case):
     from .replay_ops import replay_ops
+    if "big_seed" in case:
+        fails = []
+        check_big(ctx, case["big_seed"], fails)
+        return fails
     ops = [o for o in case["ops"] if o["op"] not in ("enc_rdf", "dec_rdf", "obs")]
     w = replay_ops(ops)
     d = next(c for c, o in w.conts.items() if o.is_document())
